@@ -520,6 +520,22 @@ func checkC12(in c12Input) (msg, shape string, obs, exp interface{}) {
 	if gu.Fragment != r.Fragment {
 		return "fragment of the reference not preserved", "fragment", gu.Fragment, r.Fragment
 	}
+	// end to end: the document the loader is asked for when a schema with this `$ref` is expanded at this base
+	if r.Path != "" {
+		var asked []string
+		loader := func(u string) (json.RawMessage, error) {
+			asked = append(asked, u)
+			return json.RawMessage(`{"definitions":{"x":{"type":"string"},"a/b":{"type":"string"},"%":{"type":"string"}}}`), nil
+		}
+		sch := spec.RefSchema(in.Ref)
+		_ = spec.ExpandSchemaWithBasePath(sch, nil, &spec.ExpandOptions{RelativeBase: in.Base, PathLoader: loader, ContinueOnError: true})
+		if len(asked) == 0 {
+			return "no document is requested from the loader for a reference to another document", "e2e-not-loaded", nil, wantDoc
+		}
+		if a := normUnreserved(stripFragment(asked[0])); a != wantDoc {
+			return "the loader is asked for a document other than the RFC 3986 target", "e2e-resolution", a, wantDoc
+		}
+	}
 	return
 }
 
@@ -558,14 +574,15 @@ func oracleC12(r *rng, n int, tier string) *oracleResult {
 		}
 	}
 	// random longer references, including escapes that decode to reserved characters
-	segs := []string{"a", "b.c", ".", "..", "%20x", "é", "x%2Fy", "x%2fy", "%2E%2E", "%2e", "q%3Fr", "s%23t", "u%25v", "w+x", "y;z"}
+	segs := []string{"a", "b.c", ".", "..", "%20x", "é", "x%2Fy", "x%2fy", "%2E%2E", "%2e", "q%3Fr", "s%23t", "u%25v", "w+x", "y;z",
+		"...", "..g", "g..", "v1..2", ".h"} // names with dots that are not dot segments (RFC 3986 5.4.2)
 	for i := 0; i < n; i++ {
 		k := 1 + r.intn(7)
 		var parts []string
 		for j := 0; j < k; j++ {
 			parts = append(parts, segs[r.intn(len(segs))])
 		}
-		parts = append(parts, r.pick(fileNames))
+		parts = append(parts, r.pick(append([]string{"a..b.json", "..g.json", "g...json"}, fileNames...)))
 		ref := strings.Join(parts, "/")
 		if r.chance(1, 3) {
 			ref = "/" + ref
